@@ -22,7 +22,7 @@ Proof.
   induction fuel; intros v log Hv; cbn [floor_log2_loop].
   - change (2 ^ N.of_nat 0) with 1 in Hv. assert (v = 0) as -> by lia. cbn. lia.
   - destruct (1 <? v) eqn:E.
-    + unfold shr. change (2 ^ 1) with 2. rewrite IHfuel.
+    + rewrite N.div2_div. rewrite IHfuel.
       * rewrite (log2_half v) by lia. lia.
       * rewrite Nat2N.inj_succ, N.pow_succ_r' in Hv. lia.
     + assert (v = 0 \/ v = 1) as [-> | ->] by lia; cbn; lia.
